@@ -150,6 +150,18 @@ func (p *Printer) Write(obj Object) {
 	}
 }
 
+// maxPrintDepth is the deepest nesting of lists the printer follows. A Go
+// stack overflow can not be recovered from so a list that contains itself
+// must be given up on before that happens.
+const maxPrintDepth = 100000
+
+func checkPrintDepth(level int) {
+	if maxPrintDepth < level {
+		ErrorPanic(NewScope(), 0,
+			"can not print a list nested more than %d levels deep, it may be circular, try setting *print-level*", maxPrintDepth)
+	}
+}
+
 // Append an Object to a byte array using the Printer variables.
 func (p *Printer) Append(b []byte, obj Object, level int) []byte {
 Top:
@@ -163,6 +175,7 @@ Top:
 		if int(p.Level) <= level {
 			return append(b, '#')
 		}
+		checkPrintDepth(level)
 		if p.Pretty {
 			b = p.appendTree(b, p.createTree(to, 0), 0, 0)
 		} else {
@@ -367,6 +380,7 @@ Top:
 			n.size = 1
 			break
 		}
+		checkPrintDepth(level)
 		if 0 < len(to) {
 			l2 := level + 1
 			n.size = 1 + len(to)
